@@ -25,6 +25,7 @@ func init() {
 		ex := c.ex
 		ex.used["ASSUMED libspec: (*net.Resolver).LookupAddr returns an error or a fresh slice of names (recorded in ghost dns.ans)"] = true
 		q := c.args[2].L[0]
+		c.blockingBound("net.Resolver.LookupAddr", sel(ex.ctxBounded(c.st), c.args[1].L[1]))
 		ok := ex.freshConst("dnsok", sBool)
 		namesT := types.NewSlice(types.Typ[types.String])
 		arr := ex.alloc(c.st)
